@@ -377,5 +377,11 @@ Expect(c) ==
     [] op = "subset" -> Subset(c[2], c[3])
     [] op = "ragged_slice" -> RaggedSlice(c[2], c[3], c[4])
     [] op = "col" -> Col(c[2], c[3], c[4])
+    \* 64-bit row totals / running totals of an array whose values are 16-bit limbs: exact modulo 2^64 (NpVal!WideSum)
+    [] op = "wreduce" -> IF DT(c[3]) \notin {"i8", "u8"} THEN UNSPEC
+                         ELSE IF c[2] = "sum" THEN <<"flat", DT(c[3]), MapRows(Rows(c[3]), LAMBDA q : WideSum(q))>>
+                         ELSE IF c[2] = "cumsum" THEN <<"ragged", DT(c[3]), MapRows(Rows(c[3]), LAMBDA q : [i \in DOMAIN q |-> WideSum(SubSeq(q, 1, i))])>>
+                         ELSE IF c[2] = "total" THEN <<"scalar", DT(c[3]), WideSum(FlatOf(c[3]))>>
+                         ELSE UNSPEC
     [] OTHER -> UNSPEC
 =======================================================================
